@@ -154,7 +154,8 @@ func init() {
 		"A3: md5.Sum executed natively on concrete labels; ring points of the enumerated label set pairwise distinct (asserted)",
 		"node label sets are enumerated (sizes and seed below), weights are 1; Hash(key)=Bucket(first 4 bytes of md5(key)) is covered through the ring location being an arbitrary 32-bit value",
 	}, stdAssumptions...),
-		Quick:    []Job{ring(1, 0, rb), ring(2, 0, rb), ring(3, 0, rb), ring(4, 1, rb), ring(8, 2, rb)},
+		Quick: []Job{ring(1, 0, rb), ring(2, 0, rb), ring(3, 0, rb), ring(4, 1, rb), ring(8, 2, rb),
+			{Pkg: "./handlers/memcached/cluster", Func: "ZZClusterSetGet", Params: map[string]int64{"n": 3}, Reach: []string{"set-done", "get-done"}, Bounds: "the real cluster Handler over 3 nodes (std handlers onto memcached models): set of a symbolic 2-byte key through one handler, get through a second handler over its own connection objects with the nodes listed in reverse; MD5 uninterpreted (any 32-bit ring location)"}},
 		Thorough: []Job{ring(3, 7, rb), ring(5, 3, rb), ring(16, 4, rb), ring(25, 3, rb), ring(30, 6, rb), ring(32, 5, rb)}})
 
 	ck := func(fn string, params map[string]int64, reach, bounds string, qt int) Job {
